@@ -458,8 +458,42 @@ def caller_sexp():
 UNITS_SEXP = "(%s)" % hx("None")
 
 
+def set_stress_case(rng):
+    """a set pattern whose elements are written independently of the collection, so that the match
+    matrix is arbitrary (several patterns competing for the same elements, wildcards, no match)"""
+    n = rng.randint(1, 5)
+    vals = [rng.randint(0, 5) for _ in range(n)]
+    k = rng.randint(1, min(n + 1, 4))
+    rest = rng.random() < 0.5
+    pats = []
+    for _ in range(k):
+        f = rng.random()
+        if f < 0.15:
+            pats.append("_")
+        elif f < 0.45:
+            pats.append(str(rng.choice(vals) if rng.random() < 0.7 else rng.randint(0, 6)))
+        elif f < 0.7:
+            pats.append("> %d" % rng.randint(-1, 5))
+        elif f < 0.9:
+            pats.append("< %d" % rng.randint(0, 6))
+        else:
+            pats.append("== %d" % rng.choice(vals))
+    pat = "#(%s)" % ", ".join(pats + ([".."] if rest else []))
+    vr = "vec![%s]" % ", ".join(str(v) for v in vals)
+    vm = "(vec %s)" % " ".join("(int %d)" % v for v in vals)
+    ty = "Vec<i32>"
+    wrap = rng.random()
+    if wrap < 0.25:
+        pat, vr, vm, ty = "Some(%s)" % pat, "Some(%s)" % vr, "(variant %s %s)" % (hx("Some"), vm), "Option<Vec<i32>>"
+    elif wrap < 0.5:
+        pat, vr, vm, ty = "(%s, _)" % pat, "(%s, 1)" % vr, "(tuple %s (int 1))" % vm, "(Vec<i32>, i32)"
+    return {"type": ty, "value_rust": vr, "value_model": vm, "pattern": pat, "kinds": {"set-stress": 1}}
+
+
 def gen_case(rng, hit=None, closures=True):
     """one triple: returns dict(type, value_rust, value_model, pattern, kinds)"""
+    if rng.random() < 0.12:
+        return set_stress_case(rng)
     t = rng.choice(ROOTS)
     vr, vm, pv = gen_value(rng, t)
     g = Gen(rng, hit if hit is not None else rng.choice([1.0, 0.9, 0.75, 0.6, 0.5]), closures)
